@@ -38,8 +38,8 @@ PROFILE = {
     "abort": 0.25,
     "handler": 0.1,
     "budget": 0.0,
-    "special": 0.04,
-    "special_kinds": ["abort", "kbd", "cancel"],
+    "special": 0.12,
+    "special_kinds": ["abort", "kbd", "cancel", "copen", "genexit"],
     "overshoot": 0.0,
     "p_retryable": 0.8,
     "max_dur": 4,
@@ -78,6 +78,17 @@ def policy_history(draw):
                     )
                 )
             ]
+    if spec.get("trip_on") != [] and spec["threshold"] <= 4 and gen.chance(draw, 0.4, "c07-prelude"):
+        # start the history from an interesting breaker state, reached through the public API (and traced, so
+        # the model follows): open / recovery elapsed / half-open with the slot released by an abandoned probe
+        k = sorted(spec.get("trip_on") or ["TRANSIENT"])[0]
+        stage = draw(st.sampled_from(["open", "ready", "released", "released"]))
+        prelude = [["fail", k]] * spec["threshold"]
+        if stage in ("ready", "released"):
+            prelude.append(["adv", spec["recovery"]])
+        if stage == "released":
+            prelude += [["allow"], ["cancel"]]
+        case["calls"][0]["pre_ops"] = prelude + (case["calls"][0].get("pre_ops") or [])
     return case
 
 
